@@ -8,3 +8,15 @@ package sourcemap
 func VerifEncodeVLQ(encoded []byte, value int) []byte { return encodeVLQ(encoded, value) }
 
 func VerifBase64() []byte { return base64 }
+
+// VerifAppendMappingToBuffer exposes appendMappingToBuffer; the name offset is returned as
+// (index, valid) so that callers need not know about ast.Index32's encoding.
+func VerifAppendMappingToBuffer(
+	buffer []byte, lastByte byte, prevState SourceMapState, currentState SourceMapState, omitSource bool,
+) ([]byte, uint32, bool) {
+	out, nameOffset := appendMappingToBuffer(buffer, lastByte, prevState, currentState, omitSource)
+	if nameOffset.IsValid() {
+		return out, nameOffset.GetIndex(), true
+	}
+	return out, 0, false
+}
